@@ -11,6 +11,6 @@ Empty == [n \in Node |-> {}]
 Disj == {p \in (SUBSET Node) \X (SUBSET Node) : p[1] \cap p[2] = {}}
 NoSelfGraphs == {x \in [Node -> SUBSET Node] : \A n \in Node : n \notin x[n]}
 Fam == {[single |-> [n \in Node |-> g[n][1]], selfOpt |-> AllFalse, slice |-> [n \in Node |-> g[n][2]],
-         sliceOpt |-> so, lazy |-> {}, wrap |-> w, fail |-> NoFail, procs |-> <<>>, mode |-> [n \in Node |-> "normal"], rorder |-> <<>>] :
+         sliceOpt |-> so, lazy |-> {}, wrap |-> w, fail |-> NoFail, procs |-> <<>>, mode |-> [n \in Node |-> "normal"], rorder |-> <<>>, ilook |-> NoLook] :
           g \in [Node -> Disj], w \in [Node -> WrapMode], so \in {AllFalse, AllTrue}}
 =============================================================================
